@@ -40,6 +40,17 @@ Proof.
   eapply N.le_trans; eassumption.
 Qed.
 
+(* C13_converge for one fork switch, at the level of the block/transaction tables, for chains
+   and forks of any length: a store holding the chain p ++ a :: q that is rolled back to the
+   common ancestor [a] and then fed the new branch q' holds exactly the new canonical chain,
+   which is also what a from-scratch store of that chain holds *)
+Theorem C13_converge_switch : forall st p a q q',
+  blocks st = p ++ a :: q -> chain_ok (p ++ a :: q) -> chain_ok (p ++ a :: q') ->
+  exists st1, fst (rollback st (slot a)) = st1 /\
+    option_map blocks (flush st1 q') = Some (p ++ a :: q') /\
+    option_map blocks (flush st1 q') = store_blocks [] (p ++ a :: q').
+Proof. exact switch_converges. Qed.
+
 (* the deep roll-back class exactly: with every stored block above the slot nothing is deleted *)
 Theorem C13_deep_rollback_deletes_nothing : forall st s,
   Forall (fun b => s < slot b) (blocks st) -> fst (rollback st s) = st.
